@@ -1345,6 +1345,79 @@ def c19_decode_for(endpoint):
     return dec
 
 
+def c19_params(endpoint, tokens):
+    """parameters of one server-side handshake run for Handshake.tla (None: not a run of c19_decode_for)"""
+    a, b, c, d = tokens
+    first, okvers = c19_firsts()[a - 1]
+    outcome = C19_OUTCOMES[c - 1]
+    lim, probe = C19_LIMITS[d - 1]
+    g = lambda k, dflt: lim.get(k, dflt)
+    return dict(ep=0 if endpoint == "both" else endpoint, t=first["t"], level=first.get("level", 0),
+                protoOk=0 if "proto" in first else 1, flagsOk=0 if "cflags" in first else 1,
+                ka=first.get("ka", 0), rm=first.get("rm", 0), outcome=outcome, probe=probe,
+                maxSend=g("max_send", 16), ackSend=g("ack_max_send", -1), maxQos=g("max_qos", 1), ackQos=g("ack_max_qos", -1),
+                maxSize=g("max_size", 0), ackSize=g("ack_max_packet_size", -1), aliasMax=g("max_topic_alias", 32),
+                ackAlias=g("ack_topic_alias_max", -1), ackKa=g("ack_keep_alive", -1), ackRM=g("ack_receive_max", -1),
+                maxReceive=g("max_receive", 16))
+
+
+def hs_conform(endpoint):
+    """event-level validation of the recorded handshake runs against Handshake.tla (TLC, HsConform)"""
+    def fn(runs, tp, name):
+        import os, vlib
+        keep = ("route", "h_start", "h_end", "out", "ctl", "ctl_done", "conn_done")
+        cand = [r for r in runs if r.get("tokens") is not None]
+        if not cand:
+            return dict(runs=0, ok=0, steps=0, stuck=[], nstuck=0)
+        evs = {}
+        cur, ci, ended = None, -1, False
+        with open(tp) as f:
+            for line in f:
+                e = json.loads(line)
+                if e["e"] == "reset":
+                    cur = evs.setdefault(e["n"], {}); ci = -1; ended = False
+                elif e["e"] == "cmd":
+                    ci = e["n"]
+                elif e["e"] == "end":
+                    ended = True
+                elif cur is not None and not ended and e["e"] in keep:
+                    cur.setdefault(ci, []).append(e)
+
+        def proj(e):
+            k, n = e["k"], 0
+            if e["e"] == "conn_done" and k.startswith(("err", "connect_err")):
+                k = "err"
+            if e["e"] == "route" or (e["e"] == "h_start") or (e["e"] == "out" and e["k"] == "CONNACK" and e["r"] == 0):
+                n = e["n"]
+            return dict(e=e["e"], k=k, s=e["s"], id=e["id"], q=e["q"], r=0 if e["e"] in ("h_start", "h_end", "ctl") else e["r"], n=n)
+
+        cp = os.path.join(vlib.WORK, "runs", f"{name}.conf.ndjson")
+        n = 0
+        with open(cp, "w") as f:
+            for r in cand:
+                ins = [i for i, c in enumerate(r["cmds"]) if c["c"] == "in"]
+                dr = [i for i, c in enumerate(r["cmds"]) if c["c"] == "drain"]
+                idx = [ins[0:1], ins[1:2], ins[2:3], dr[0:1]]
+                ph = []
+                for ii in idx:
+                    es = [proj(e) for i in ii for e in evs.get(r["run"], {}).get(i, [])]
+                    ph.append([e for e in es if e["e"] not in ("out", "conn_done")] + [e for e in es if e["e"] == "conn_done"]
+                              + [e for e in es if e["e"] == "out"])
+                f.write(json.dumps(dict(run=r["run"], p=c19_params(endpoint, r["tokens"]), evs=ph), separators=(",", ":")) + "\n")
+                n += 1
+        res = vlib.tlc("HsConform", "SPECIFICATION ConformSpec\nCHECK_DEADLOCK FALSE\n", f"conf_{name}", workers=1, timeout=1800, cache=False,
+                       env=dict(CONF=cp, CONFDBG=os.environ.get("CONFDBG", "0")), java_opts="-Xss1g -Xmx3g",
+                       out_path=os.path.join(vlib.WORK, "runs", f"{name}.conf.txt"))
+        ok = {a[0] for a in vlib.prints(res["out"], "CONF") if a[1] == "ok"}
+        stuck = {a[0]: a[2] for a in vlib.prints(res["out"], "CONF") if a[1] != "ok"}
+        if len(ok) + len(stuck) != n:
+            raise vlib.ToolError(f"handshake conformance {name}: {n} runs in, {len(ok)} + {len(stuck)} out")
+        by = {r["run"]: r for r in cand}
+        return dict(runs=n, ok=len(ok), steps=4 * n, nstuck=len(stuck), wall=res["wall"],
+                    stuck=[dict(tokens=by[k]["tokens"], at=v, role="server", ver=by[k]["cfg"].get("ver")) for k, v in list(stuck.items())[:6]])
+    return fn
+
+
 def c19_client_decode(ver):
     def dec(tokens, variant):
         # a: configured max_send 1..4, b: CONNACK Receive Maximum (1 = absent, 2..5 = 1..4),
@@ -1381,7 +1454,7 @@ def c19_configs(tier):
         cs.append((f"client{ver}", PROD4_CFG.format(d1=4, d2=5, d3=3, d4=3), "Prod4", c19_client_decode(ver), [None]))
     for ep in (3, 5, "both"):
         cs.append((f"ep{ep}", PROD4_CFG.format(d1=nf, d2=len(C19_CUTS), d3=len(C19_OUTCOMES), d4=len(C19_LIMITS)),
-                   "Prod4", c19_decode_for(ep), [None]))
+                   "Prod4", c19_decode_for(ep), [None], None, hs_conform(ep)))
     return cs
 
 
